@@ -31,7 +31,7 @@ def merge(a, b):
 
 # (int-default leaves also get a value with a fractional part: the three routes must not round it differently)
 LEAF_MENU = [
-    ('MSA', [0, 1500, 10000]),
+    ('MSA', [0, 1500, 10000, None]),        # (None is the default: it matters when the prior global holds something else)
     ('MSA_HIT_BUFFER', [0, 500, 250.75]),
     ('MAX_HITS_OKTA0', [0, 1, 10]),
     ('MAX_HOLES_OKTA8', [0, 5]),
